@@ -188,7 +188,7 @@ func check(c *facet.Ctx, in Call, restype bool) error {
 	// RawEquals to the result. Sets are exempt (two sets with the same members
 	// need not be RawEquals when members tie in the iteration order: that shape
 	// is owned by C03) and so are tolerance comparisons.
-	if !o.unordered && !o.numTol {
+	if !o.unordered && !o.numTol && !o.skipRaw {
 		if wv, err := spec.Build(o.want); err == nil {
 			if !got.RawEquals(wv) {
 				if hasSetInside(o.want.T) {
